@@ -21,6 +21,18 @@ CallFails(c) ==
           \o (IF c.msg THEN ConsistencyDefects(c.raw) \o F("P3_raw_is_buffer_slice", IsSliceAtMarker(c.raw, c.rem)) ELSE <<>>))
 RECURSIVE AllCalls(_, _)
 AllCalls(cs, i) == IF i > Len(cs) THEN <<>> ELSE CallFails(cs[i]) \o AllCalls(cs, i + 1)
+\* the first frame of the buffer declares (numerically) a BodyLength reaching beyond the end of the buffer
+DeclaresMoreThanPresent(b) ==
+    LET m == FirstMarker(b) IN
+    IF m = 0 THEN FALSE
+    ELSE LET r == SubSeq(b, m, Len(b))
+             S == { i \in DOMAIN r : r[i] = SOHb } IN
+         IF Cardinality(S) < 2 THEN FALSE
+         ELSE LET s1 == CHOOSE i \in S : \A x \in S : i <= x
+                  s2 == CHOOSE i \in S \ {s1} : \A x \in S \ {s1} : i <= x
+                  lf == SubSeq(r, s1 + 1, s2 - 1)
+              IN Len(lf) >= 3 /\ lf[1] = 57 /\ lf[2] = EQb /\ AllDigits(SubSeq(lf, 3, Len(lf))) /\ Len(lf) <= 11
+                 /\ s2 + ToNat(SubSeq(lf, 3, Len(lf)), 1, 0) + 7 > Len(r)
 \* known-finding trigger: a returned frame whose only defect is a BodyLength that differs from its byte count
 LaxBodyLength(c) == c.exc = "none" /\ c.msg /\ ConsistencyDefects(c.raw) = <<"P3_bodylength_value">>
 Verdict(r) ==
@@ -30,7 +42,12 @@ Verdict(r) ==
                                        ELSE FrameDefects(r.bytes)]
       [] r.kind = "decode" ->
             [id |-> r.id,
-             fails |-> AllCalls(r.calls, 1) \o F("P2_terminates", r.terminated),
+             fails |-> AllCalls(r.calls, 1) \o F("P2_terminates", r.terminated)
+                       \* P5: the valid frames that follow the malformed input in the same buffer are all returned
+                       \* (not demanded when the malformed frame declares a BodyLength that has not arrived yet)
+                       \o F("P5_following_frames_returned",
+                            DeclaresMoreThanPresent(r.buf) \/
+                            \A k \in DOMAIN r.follow : \E i \in DOMAIN r.calls : r.calls[i].exc = "none" /\ r.calls[i].msg /\ r.calls[i].raw = r.follow[k]),
              trigs |-> IF \E i \in DOMAIN r.calls : LaxBodyLength(r.calls[i]) THEN <<"Trig_LaxBodyLength">> ELSE <<>>]
       [] r.kind = "reads" ->     \* C03: after every read the frames that have completely arrived are journaled / delivered
             LET arrived(p) == Cardinality({ i \in DOMAIN r.ends : r.ends[i] <= p })
